@@ -335,6 +335,26 @@ class World (object):
     self.of_task = None
     self.listener = None
     self.steps = 0
+    self.hub_pass = self.hub.idle
+
+  def hub_as_its_own_thread (self):
+    """
+    The select hub configured as with threaded_selecthub=True, its thread
+    replaced by the driver: idle() and break_idle() are those of the threaded
+    mode (an event, no ping), and a pass of the hub's loop is made by
+    hub_pass() whenever the driver decides the hub thread gets the
+    processor - one of the interleavings the two threads can have.
+    """
+    class _Event (object):
+      def __init__ (self): self.n = 0
+      def set (self): self.n += 1
+      def clear (self): pass
+      def wait (self, timeout=None): return True
+    hub = self.hub
+    hub._thread = object()
+    hub._event = _Event()
+    rets = {}
+    self.hub_pass = lambda: hub._select(hub._tasks, rets)
 
   # -- controller side
   def start_openflow (self, deferred_stub=True):
@@ -386,7 +406,7 @@ class World (object):
   def step (self):
     """One scheduler cycle (idling the hub first if nothing is ready)."""
     if not self.sched._ready:
-      self.hub.idle()
+      self.hub_pass()
     self.sched.cycle()
     self.steps += 1
 
@@ -434,7 +454,7 @@ class World (object):
     """
     t0 = self.clock.now
     self.hub._pinger.ping()
-    self.hub.idle()
+    self.hub_pass()
     if self.clock.now != t0:
       raise AdapterError("virtual time moved inside a zero-time idle "
                          "(stats %r)" % (self.stats,))
